@@ -139,7 +139,7 @@ fn cases(thorough: bool) -> Vec<Case> {
             let p = problem(pid, args);
             let jacs: Vec<&'static str> = if is_implicit(m) { if *pid == "decay" || *pid == "osc" || *pid == "lin3" { vec!["none", "callable", "constant"] } else if *pid == "switch" { vec!["callable"] } else { vec!["none", "callable"] } } else { vec!["none"] };
             for jac in jacs {
-                for opt in 0..13 {
+                for opt in 0..14 {
                     if jac != "none" && ![0, 1, 3].contains(&opt) {
                         continue;
                     }
@@ -183,6 +183,13 @@ fn cases(thorough: bool) -> Vec<Case> {
                             c.dense = true;
                             sol_ts = vec![*span, 0.97 * span, 0.77 * span, 0.5 * span, 0.37 * span, 0.05 * span, 0.0];
                         }
+                        13 => {
+                            // backward run with a given first step and step bound
+                            c.x0 = *span;
+                            c.xend = 0.0;
+                            c.first_step = Some(-span / 64.0);
+                            c.max_step = Some(span / 8.0);
+                        }
                         11 => {
                             // pure relative control (atol = 0 is a value, not "no value")
                             if *pid != "decay" {
@@ -212,7 +219,7 @@ fn cases(thorough: bool) -> Vec<Case> {
                             c.atol = Tol::V((0..p.n).map(|i| 1e-7 * 10f64.powi(-(i as i32))).collect());
                         }
                     }
-                    if m == Method::RK4 && opt == 6 {
+                    if m == Method::RK4 && (opt == 6 || opt == 13) {
                         c.max_step = None;
                     }
                     let mut events: Vec<Value> = c.events.iter().map(ev_json).collect();
